@@ -192,7 +192,10 @@ def run(spec, cfgname, post_depth=0):
         primal = float(pep.objective.eval())
         if cfg["mode"] == "primal" and abs(primal - val) > 1e-9 * max(1, abs(val)) and not cfg["dr"]:
             res["c02"].append(("instance:primal-value:%s" % be, "primal mode returned %.10g, objective evaluates to %.10g" % (val, primal)))
-        if dual_value is not None and primal > dual_value + 50 * tol * max(1.0, abs(dual_value)) and not res["c01"]:
+        if dual_value is not None and primal > dual_value + 50 * tol * max(1.0, abs(dual_value)) \
+                and not (res["c01"] and res.get("cert", {}).get("asym", 0) > 0):
+            # (a certificate that is incomplete for the recorded reason - mirrored LMI entries written differently - has no
+            #  meaningful constant; any OTHER certificate defect does not excuse a primal value above the dual bound)
             res["c02"].append(("instance:primal-exceeds-dual:%s" % be, "primal %.8g > dual %.8g" % (primal, dual_value)))
         res["held"] = len(held)
     except Exception as e:
